@@ -4,18 +4,84 @@ import (
 	"bytes"
 	"encoding/json"
 	"fmt"
-	"math/rand"
 	"sort"
 	"strings"
+	"time"
 	"unicode/utf8"
+
+	"verif/internal/core"
 )
 
-// respellJSON writes the same JSON value in another spelling: characters of strings and keys as \uXXXX escapes
-// (surrogate pairs beyond the BMP), "/" as "\/", white space between tokens. Numbers, literals and key order stay as
-// they are. A decoder must not be able to tell the two documents apart.
-// full: every character of every string value is escaped (keys and white space vary at random either way); otherwise
-// string values keep their spelling.
-func respellJSON(doc []byte, rng *rand.Rand, full bool) []byte {
+// spellPlan is one plan of spec/MC_Spelling.tla: the ways characters are spelled, taken in turn along the document
+// ("raw", "u" = \uXXXX, "short" = the character's short escape), and the white space after opening / separating
+// tokens and before closing / colon tokens.
+type spellPlan struct {
+	Ways []string `json:"ways"`
+	WS   []string `json:"ws"`
+}
+
+func (p spellPlan) escapes() bool {
+	for _, w := range p.Ways {
+		if w != "raw" {
+			return true
+		}
+	}
+	return false
+}
+
+// spellPlans: design check of Spelling.tla (a reader sees the value, not the spelling) and the plans it emits.
+func spellPlans(c *core.Check, design bool) []spellPlan {
+	if design {
+		r, err := core.RunTLC(core.TLCOpts{Module: "MC_Spelling", Cfg: "MC_Spelling.cfg", Workers: 4, Timeout: 10 * time.Minute})
+		if err != nil || r.Error != "" {
+			c.HarnessError(fmt.Sprintf("MC_Spelling: %v %s", err, r.Error))
+			return nil
+		}
+		if r.InvViolated != "" {
+			c.Note("MODEL: design check MC_Spelling reports %s violated", r.InvViolated)
+		}
+		c.AddTLC(r)
+	}
+	er, err := core.RunTLC(core.TLCOpts{Module: "MC_Spelling", Cfg: "MC_Spelling_emit.cfg", Workers: 1, Timeout: 5 * time.Minute})
+	if err != nil || er.Error != "" {
+		c.HarnessError(fmt.Sprintf("MC_Spelling emit: %v %s", err, er.Error))
+		return nil
+	}
+	seen := map[string]spellPlan{}
+	var keys []string
+	for _, j := range er.JSON {
+		var v struct {
+			Spelling *spellPlan `json:"spelling"`
+		}
+		if json.Unmarshal(j, &v) != nil || v.Spelling == nil || len(v.Spelling.Ways) == 0 || len(v.Spelling.WS) != 2 {
+			continue
+		}
+		if _, ok := seen[string(j)]; !ok {
+			seen[string(j)] = *v.Spelling
+			keys = append(keys, string(j))
+		}
+	}
+	if len(keys) == 0 {
+		c.HarnessError("MC_Spelling emit: no plans")
+		return nil
+	}
+	sort.Strings(keys)
+	out := make([]spellPlan, len(keys))
+	for i, k := range keys {
+		out[i] = seen[k]
+	}
+	c.Add("spelling_plans", int64(len(out)))
+	return out
+}
+
+var wsText = map[string]string{"": "", " ": " ", "nl-tab": "\n\t", "crlf-sp": "\r\n "}
+var shortEsc = map[rune]string{'"': `\"`, '\\': `\\`, '/': `\/`, '\n': `\n`, '\t': `\t`, '\r': `\r`, '\b': `\b`, '\f': `\f`}
+
+// respellJSON writes the same JSON value in the spelling of the plan: the k-th character of the document's keys and
+// string values is written the plan's (k mod len)-th way where JSON allows that way for it (Spelling.Use), tokens are
+// separated by the plan's white space. Numbers, literals and key order (sorted) stay. A decoder must not be able to
+// tell the two documents apart.
+func respellJSON(doc []byte, plan spellPlan) []byte {
 	dec := json.NewDecoder(bytes.NewReader(doc))
 	dec.UseNumber()
 	var v any
@@ -23,40 +89,37 @@ func respellJSON(doc []byte, rng *rand.Rand, full bool) []byte {
 		return doc
 	}
 	var b strings.Builder
-	ws := func() {
-		switch rng.Intn(6) {
-		case 0:
-			b.WriteByte(' ')
-		case 1:
-			b.WriteString("\n\t")
-		case 2:
-			b.WriteString("\r\n ")
-		}
-	}
-	str := func(s string, all, some bool) {
+	k := 0
+	w1, w2 := wsText[plan.WS[0]], wsText[plan.WS[1]]
+	str := func(s string) {
 		b.WriteByte('"')
 		for _, r := range s {
+			way := plan.Ways[k%len(plan.Ways)]
+			k++
+			sh, hasShort := shortEsc[r]
+			must := r < 0x20 || r == '"' || r == '\\'
 			switch {
 			case r == utf8.RuneError:
-				b.WriteString(`�`)
-			case r == '/' && (all || some && rng.Intn(2) == 0):
-				b.WriteString(`\/`)
-			case r < 0x20 || r == '"' || r == '\\' || all || some && rng.Intn(3) == 0:
-				if r > 0xffff {
-					r -= 0x10000
-					fmt.Fprintf(&b, `\u%04x\u%04X`, 0xd800+(r>>10), 0xdc00+(r&0x3ff))
+				b.WriteString(`\uFFFD`)
+			case way == "short" && hasShort:
+				b.WriteString(sh)
+			case way == "raw" && !must:
+				b.WriteRune(r)
+			case r > 0xffff:
+				if way == "raw" {
+					b.WriteRune(r)
 				} else {
-					fmt.Fprintf(&b, `\u%04X`, r)
+					x := r - 0x10000
+					fmt.Fprintf(&b, `\u%04x\u%04X`, 0xd800+(x>>10), 0xdc00+(x&0x3ff))
 				}
 			default:
-				b.WriteRune(r)
+				fmt.Fprintf(&b, `\u%04X`, r)
 			}
 		}
 		b.WriteByte('"')
 	}
 	var emit func(v any)
 	emit = func(v any) {
-		ws()
 		switch x := v.(type) {
 		case map[string]any:
 			keys := make([]string, 0, len(x))
@@ -69,13 +132,14 @@ func respellJSON(doc []byte, rng *rand.Rand, full bool) []byte {
 				if i > 0 {
 					b.WriteByte(',')
 				}
-				ws()
-				str(k, false, true)
-				ws()
+				b.WriteString(w1)
+				str(k)
+				b.WriteString(w2)
 				b.WriteByte(':')
+				b.WriteString(w1)
 				emit(x[k])
 			}
-			ws()
+			b.WriteString(w2)
 			b.WriteByte('}')
 		case []any:
 			b.WriteByte('[')
@@ -83,12 +147,13 @@ func respellJSON(doc []byte, rng *rand.Rand, full bool) []byte {
 				if i > 0 {
 					b.WriteByte(',')
 				}
+				b.WriteString(w1)
 				emit(e)
 			}
-			ws()
+			b.WriteString(w2)
 			b.WriteByte(']')
 		case string:
-			str(x, full, false)
+			str(x)
 		case json.Number:
 			b.WriteString(x.String())
 		case bool:
@@ -96,9 +161,10 @@ func respellJSON(doc []byte, rng *rand.Rand, full bool) []byte {
 		case nil:
 			b.WriteString("null")
 		}
-		ws()
 	}
+	b.WriteString(w2)
 	emit(v)
+	b.WriteString(w1)
 	out := []byte(b.String())
 	// (self-check: the respelled document is the same JSON value)
 	var a1, a2 any
@@ -116,7 +182,7 @@ func respellJSON(doc []byte, rng *rand.Rand, full bool) []byte {
 // escapedTimeInCollection: does the document (valid for the resolved schema rs) hold a date-time string as an array
 // item or as a value of additionalProperties - the places where the generated code leaves the string to
 // encoding/json and time.Time's own UnmarshalJSON, which does not decode JSON escapes (selector of the known finding
-// c08-escaped-time-in-collection; it applies to documents respelled with full = true).
+// c08-escaped-time-in-collection; it applies to documents respelled by a plan that escapes).
 func escapedTimeInCollection(rs map[string]any, doc any) bool {
 	var walk func(s map[string]any, v any, inColl bool) bool
 	walk = func(s map[string]any, v any, inColl bool) bool {
